@@ -15,15 +15,20 @@ import (
 	"verif/harness/vh"
 )
 
-type H struct{ h interface{ Write([]byte) (int, error); Sum64() uint64 } }
+type H struct {
+	h interface {
+		Write([]byte) (int, error)
+		Sum64() uint64
+	}
+}
 
-func New() *H                  { return &H{h: fnv.New64a()} }
-func (h *H) S(s string) *H     { h.h.Write([]byte(s)); h.h.Write([]byte{0}); return h }
-func (h *H) B(b []byte) *H     { h.h.Write([]byte(fmt.Sprintf("%d:", len(b)))); h.h.Write(b); return h }
-func (h *H) I(i int) *H        { return h.S(fmt.Sprintf("%d", i)) }
-func (h *H) Sum() string       { return fmt.Sprintf("%016x", h.h.Sum64()) }
-func Str(s string) string      { return New().S(s).Sum() }
-func Bytes(b []byte) string    { return New().B(b).Sum() }
+func New() *H               { return &H{h: fnv.New64a()} }
+func (h *H) S(s string) *H  { h.h.Write([]byte(s)); h.h.Write([]byte{0}); return h }
+func (h *H) B(b []byte) *H  { h.h.Write([]byte(fmt.Sprintf("%d:", len(b)))); h.h.Write(b); return h }
+func (h *H) I(i int) *H     { return h.S(fmt.Sprintf("%d", i)) }
+func (h *H) Sum() string    { return fmt.Sprintf("%016x", h.h.Sum64()) }
+func Str(s string) string   { return New().S(s).Sum() }
+func Bytes(b []byte) string { return New().B(b).Sum() }
 
 func isNil(x interface{}) bool {
 	if x == nil {
